@@ -1,4 +1,5 @@
 import OrsoVerif.Lemmas.Cast
+import OrsoVerif.Lemmas.CastDecimal
 /-!
 # C07 — Casting to a column type is exact on canonical renderings
 
@@ -42,6 +43,18 @@ theorem double_roundtrip (fot : List Char → Option UInt64) (rep : UInt64 → L
     parseDouble fot (.str (rep f)) = .ok (.float f) ∧ parseDouble fot (.float f) = .ok (.float f) := by
   simp [parseDouble, hparam]
 
+/-- **The generated `if length:` tests and `[:length]` slices** of `parse_varchar` and
+`parse_bytes` (expressions lifted from the source on this run): length 0 is "no limit", a positive
+length `n` slices to exactly `[:n]`. -/
+theorem limit_expressions :
+    LimitFacts (fun k => decide (Gen.Cast.varcharLimitTest k)) Gen.Cast.varcharStop ∧
+    LimitFacts (fun k => decide (Gen.Cast.blobLimitTest k)) Gen.Cast.blobStop := by
+  refine ⟨⟨by decide, fun k => ⟨decide_eq_true ?_, ?_⟩⟩, ⟨by decide, fun k => ⟨decide_eq_true ?_, ?_⟩⟩⟩
+  · unfold Gen.Cast.varcharLimitTest; omega
+  · unfold Gen.Cast.varcharStop; rfl
+  · unfold Gen.Cast.blobLimitTest; omega
+  · unfold Gen.Cast.blobStop; rfl
+
 /-- **Text with an optional maximum length**: the result is the longest prefix within `n` code
 points (no limit for `None` and, by `if length:`, for 0); UTF-8 bytes are decoded first. -/
 theorem varchar_prefix (s : List Char) (n : Option Nat) :
@@ -50,7 +63,7 @@ theorem varchar_prefix (s : List Char) (n : Option Nat) :
        | none => r = s
        | some 0 => r = s
        | some (k + 1) => r.length ≤ k + 1 ∧ ∀ q, q <+: s → q.length ≤ k + 1 → q <+: r) := by
-  refine ⟨limit Gen.Cast.varcharLengthGuard n s, rfl, limit_prefix _ _ _, limit_longest _ _ (by decide)⟩
+  exact ⟨limitVarchar n s, rfl, limitWith_prefix _ _ _ _, limitWith_longest limit_expressions.1 n s⟩
 
 theorem varchar_utf8 (s : String) (n : Option Nat) :
     parseVarchar n (.bytes s.toUTF8.data.toList) = parseVarchar n (.str s.toList) := by
@@ -64,17 +77,19 @@ theorem blob_prefix (b : List UInt8) (n : Option Nat) :
        | none => r = b
        | some 0 => r = b
        | some (k + 1) => r.length ≤ k + 1 ∧ ∀ q, q <+: b → q.length ≤ k + 1 → q <+: r) := by
-  refine ⟨limit Gen.Cast.blobLengthGuard n b, rfl, limit_prefix _ _ _, limit_longest _ _ (by decide)⟩
+  exact ⟨limitBlob n b, rfl, limitWith_prefix _ _ _ _, limitWith_longest limit_expressions.2 n b⟩
 
-/-- **Arrays element-wise with nulls kept**: the result has the same length, `null` stays `null`
+/-- **Arrays element-wise with nulls kept** (`parseArray` is written from the comprehension
+`[parser(v) for v in x]`, `parser = element_type.parse`, whose source text is extracted and pinned here): the result has the same length, `null` stays `null`
 at its position and every other element is the element type's cast of that element; if any
 element's cast raises, the array cast raises. -/
 theorem array_elementwise (fot : List Char → Option UInt64) (t : Ty) (xs : List (Option Val)) :
+    (Gen.Cast.arrayComprehension = "[parser(v) for v in x]" ∧ Gen.Cast.arrayParser = "element_type.parse") ∧
     (∀ rs, parseArray fot (some t) xs = .ok rs →
       rs.length = xs.length ∧
       ∀ i (h : i < xs.length) (h' : i < rs.length), parse fot t xs[i] = .ok rs[i] ∧ (xs[i] = none → rs[i] = none)) ∧
     ((∃ x ∈ xs, ∃ e, parse fot t x = .error e) → ∃ e, parseArray fot (some t) xs = .error e) :=
-  ⟨fun rs h => parseArray_spec fot t xs rs h, parseArray_raises fot t xs⟩
+  ⟨⟨rfl, rfl⟩, fun rs h => parseArray_spec fot t xs rs h, parseArray_raises fot t xs⟩
 
 /-- **DATE / TIMESTAMP reuse the C08 parser**: already-typed values are kept (timestamps to whole
 seconds), a date casts to its midnight. -/
@@ -98,6 +113,16 @@ theorem result_class (fot : List Char → Option UInt64) (t : Ty) (v : Val) (r :
   | date => exact parseTemporal_cls .date v r h (by decide)
   | timestamp => exact parseTemporal_cls .timestamp v r h (by decide)
 
+/-- **The generated factory expressions** (`decimal.Context(prec=…)`, `safe_scale = …`,
+`Decimal(10) ** …`, lifted from `DecimalFactory.__call__` on this run) cover the statement: the
+context precision is the declared precision, every scale up to 28 is quantised to exactly that
+many places, rounding is half-even. -/
+theorem factory_expressions : FactoryFacts where
+  prec := by intro p; rfl
+  scale := by intro s hs; unfold Gen.Cast.quantExp Gen.Cast.quantScale; omega
+  rounding := by decide
+  pad := by intro s; unfold Gen.Cast.padCount; omega
+
 /-- **Decimals are exact whenever they fit.**  A finite decimal `(-1)^neg · c · 10^e` with at most
 `s ≤ 28` fractional digits (`-s ≤ e`) whose coefficient, rescaled to exponent `-s`, has at most `p`
 digits is returned as exactly that value, quantised to `s` places: coefficient `c · 10^(e+s)` at
@@ -105,7 +130,7 @@ exponent `-s` (same sign, so `-0` stays `-0`).  It holds for an already-typed `D
 text (or, by `parseDecimal`, bytes / integer rendering) that `Decimal` reads as that number, except
 all-digit text, whose zero padding is compared by correspondence only. -/
 theorem decimal_exact (p s : Nat) (neg : Bool) (c : Nat) (e : Int) (hp : 1 ≤ p)
-    (hs : s ≤ Gen.Cast.maxQuantScale) (he : -(s : Int) ≤ e) (hc : numDigits c ≤ p)
+    (hs : s ≤ 28) (he : -(s : Int) ≤ e) (hc : numDigits c ≤ p)
     (hd : numDigits (c * 10 ^ (e + s).toNat) ≤ p) :
     parseDecimal (some p) (some s) (.dec (.fin neg c e))
       = .ok (.dec (.fin neg (c * 10 ^ (e + s).toNat) (-(s : Int)))) ∧
@@ -113,27 +138,107 @@ theorem decimal_exact (p s : Nat) (neg : Bool) (c : Nat) (e : Int) (hp : 1 ≤ p
       decOfText (stripD (stripD t)) = some (.fin neg c e) →
       parseDecimal (some p) (some s) (.str t)
         = .ok (.dec (.fin neg (c * 10 ^ (e + s).toNat) (-(s : Int)))) := by
-  have h1 := factory_fits p s neg c e hp hs he hc hd
+  have h1 := factory_fits factory_expressions p s neg c e hp hs he hc hd
   refine ⟨h1, ?_⟩
   intro t hnd ht
   simp only [parseDecimal, Option.getD_some]
-  rw [factory_text p s (stripD t) hnd _ ht hp]
+  rw [factory_text factory_expressions p s (stripD t) hnd _ ht hp]
   exact h1
-
-/-- The quantisation bound of the source covers the statement's "scale of at most 28". -/
-theorem scale_bound_covers_statement : 28 ≤ Gen.Cast.maxQuantScale ∧ Gen.Cast.rounding = "ROUND_HALF_EVEN" := by
-  decide
 
 /-- **Casting the result again changes nothing** (idempotence on already-typed decimals that are
 quantised to the column's scale and fit its precision). -/
 theorem decimal_idempotent (p s : Nat) (neg : Bool) (c : Nat) (hp : 1 ≤ p)
-    (hs : s ≤ Gen.Cast.maxQuantScale) (hc : numDigits c ≤ p) :
+    (hs : s ≤ 28) (hc : numDigits c ≤ p) :
     parseDecimal (some p) (some s) (.dec (.fin neg c (-(s : Int)))) = .ok (.dec (.fin neg c (-(s : Int)))) := by
   have e0 : (-(s : Int) + s).toNat = 0 := by omega
-  have h := factory_fits p s neg c (-(s : Int)) hp hs (Int.le_refl _) hc
+  have h := factory_fits factory_expressions p s neg c (-(s : Int)) hp hs (Int.le_refl _) hc
     (by rw [e0]; simpa using hc)
   rw [e0] at h
   simpa [parseDecimal] using h
+
+/-- **`Decimal(str(d)) = d`: the canonical rendering reads back exactly** — sign, coefficient and
+exponent of every finite decimal (plain and scientific notation, leading fractional zeros), the
+sign of an infinity, NaN — and contains no white space; hence casting the rendering (when it is
+not all digits) is casting the decimal itself.  `renderDec` is CPython's `Decimal.__str__`,
+compared with `str(d)` on every generated decimal. -/
+theorem decimal_text_roundtrip (d : Dec) :
+    decOfText (renderDec d) = some d ∧ stripD (renderDec d) = renderDec d ∧
+    ∀ p s : Nat, 1 ≤ p → (!(renderDec d).isEmpty && allDigits (renderDec d)) = false →
+      parseDecimal (some p) (some s) (.str (renderDec d)) = parseDecimal (some p) (some s) (.dec d) := by
+  refine ⟨decOfText_renderDec d, stripD_renderDec d, ?_⟩
+  intro p s hp hnd
+  simp only [parseDecimal, Option.getD_some, stripD_renderDec]
+  exact factory_text factory_expressions p s (renderDec d) hnd d
+    (by rw [stripD_renderDec]; exact decOfText_renderDec d) hp
+
+/-- **The all-digit zero-padding path preserves the value**: for non-empty all-digit text `t`
+(`value += "." + "0" * min(scale, 3)`, count from the generated expression) the cast is the cast of
+the decimal `natOf t · 10^k` at exponent `-k` — the same number — and when that number fits
+`(p, s)`, `s ≤ 28`, the result is exactly `natOf t` quantised to `s` places. -/
+theorem decimal_zero_padding (p s : Nat) (t : List Char) (hne : t ≠ []) (ht : ∀ c ∈ t, c.isDigit = true) :
+    parseDecimal (some p) (some s) (.str t)
+      = parseDecimal (some p) (some s)
+          (.dec (.fin false (natOf t * 10 ^ (Gen.Cast.padCount s).toNat) (-((Gen.Cast.padCount s).toNat : Int)))) ∧
+    (1 ≤ p → s ≤ 28 → numDigits (natOf t * 10 ^ s) ≤ p →
+      parseDecimal (some p) (some s) (.str t) = .ok (.dec (.fin false (natOf t * 10 ^ s) (-(s : Int))))) := by
+  have hst : stripD t = t := stripD_id t (fun c hc => isWsD_of_isDigit (ht c hc))
+  have h1 : parseDecimal (some p) (some s) (.str t)
+      = parseDecimal (some p) (some s)
+          (.dec (.fin false (natOf t * 10 ^ (Gen.Cast.padCount s).toNat) (-((Gen.Cast.padCount s).toNat : Int)))) := by
+    have cr : ∀ prec d, created prec s (.inr d) = some (roundTo prec d) := fun _ _ => rfl
+    simp only [parseDecimal, Option.getD_some, hst, factory, created_digits _ s t hne ht, cr]
+  refine ⟨h1, ?_⟩
+  intro hp hs hd
+  rw [h1]
+  obtain ⟨k0, k1⟩ := factory_expressions.pad s
+  generalize hk : (Gen.Cast.padCount s).toNat = k at *
+  have hks : k ≤ s := by omega
+  have e1 : (-(k : Int) + s).toNat = s - k := by omega
+  have e2 : natOf t * 10 ^ k * 10 ^ (s - k) = natOf t * 10 ^ s := by
+    rw [Nat.mul_assoc, ← Nat.pow_add]; congr 2; omega
+  have hle : natOf t * 10 ^ k ≤ natOf t * 10 ^ s :=
+    Nat.mul_le_mul_left _ (Nat.pow_le_pow_right (by decide) hks)
+  have := factory_fits factory_expressions p s false (natOf t * 10 ^ k) (-(k : Int)) hp hs (by omega)
+    (numDigits_mono (by omega) hle hd) (by rw [e1, e2]; exact hd)
+  rw [e1, e2] at this
+  simpa [parseDecimal] using this
+
+/-- **Rounding half to even to `prec` digits** (`create_decimal` under the factory's context): a
+coefficient of at most `p` digits is kept; otherwise, with `k` surplus digits, the new coefficient
+denotes `q' · 10^k` where `q' = roundQuot c k` is a nearest multiple (`|c − q'·10^k| ≤ 10^k / 2`),
+the even one on a tie, the floor quotient or one more; after a carry to `10^p` one more digit is
+dropped; the result never has more than `p` digits. -/
+theorem decimal_rounds_half_even (p : Nat) (hp : 0 < p) (neg : Bool) (c : Nat) (e : Int) :
+    (numDigits c ≤ p → roundTo p (.fin neg c e) = .fin neg c e) ∧
+    (p < numDigits c →
+      ∃ c' j, roundTo p (.fin neg c e) = .fin neg c' (e + (numDigits c - p : Nat) + (j : Nat)) ∧
+        c' * 10 ^ j = roundQuot c (numDigits c - p) ∧ numDigits c' ≤ p) ∧
+    (∀ k, 2 * (roundQuot c k * 10 ^ k) ≤ 2 * c + 10 ^ k ∧ 2 * c ≤ 2 * (roundQuot c k * 10 ^ k) + 10 ^ k ∧
+      ((2 * (roundQuot c k * 10 ^ k) = 2 * c + 10 ^ k ∨ 2 * c = 2 * (roundQuot c k * 10 ^ k) + 10 ^ k) →
+        roundQuot c k % 2 = 0) ∧
+      (roundQuot c k = c / 10 ^ k ∨ roundQuot c k = c / 10 ^ k + 1)) :=
+  ⟨(roundTo_spec p hp neg c e).1, (roundTo_spec p hp neg c e).2, fun k => roundQuot_spec c k⟩
+
+/-- **Quantisation and the `InvalidOperation` fallback — decimals that do NOT fit are covered too.**
+For every decimal `d` (any digits, any exponent, infinities, NaN) and `p ≥ 1`, with `T` the generated
+quantisation exponent (`-min(scale, 28)`): the cast returns the value rounded to `p` digits and
+rescaled to exponent `T` — exact scaling upward, half-even rounding of dropped digits — when the
+rescaled coefficient has at most `p` digits; otherwise (what CPython signals as `InvalidOperation`)
+it returns the rounded, unquantised value; infinities come back unchanged, NaN stays NaN.  In every
+case the result is a decimal: the cast of a decimal never raises. -/
+theorem decimal_fallback_spec (p s : Nat) (hp : 1 ≤ p) (d : Dec) :
+    parseDecimal (some p) (some s) (.dec d) = .ok (.dec (
+      match roundTo p d with
+      | .fin neg c e =>
+        if numDigits (rescale c e (Gen.Cast.quantExp (Gen.Cast.quantScale s))) ≤ p
+        then .fin neg (rescale c e (Gen.Cast.quantExp (Gen.Cast.quantScale s))) (Gen.Cast.quantExp (Gen.Cast.quantScale s))
+        else .fin neg c e
+      | .inf n => .inf n
+      | .nan => .nan)) ∧
+    (∀ (c : Nat) (e target : Int),
+      (target ≤ e → rescale c e target = c * 10 ^ (e - target).toNat) ∧
+      (e < target → rescale c e target = roundQuot c (target - e).toNat)) :=
+  ⟨factory_spec factory_expressions p s hp d, rescale_spec⟩
 
 /-! Non-vacuity (concrete inputs through the whole text path, including rounding and the fallback). -/
 
@@ -147,6 +252,9 @@ example : parseDecimal (some 5) (some 2) (.str "123.456".toList) = .ok (.dec (.f
 /-- does not fit: the `InvalidOperation` fallback returns the rounded, unquantised value -/
 example : parseDecimal (some 5) (some 2) (.str "123456".toList) = .ok (.dec (.fin false 12346 1)) := by decide
 example : parseDecimal (some 5) (some 2) (.str "abc".toList) = .error .invalidOperation := by decide
+example : String.ofList (renderDec (.fin true 15 (-1))) = "-1.5" ∧ String.ofList (renderDec (.fin false 1 2)) = "1E+2"
+    ∧ String.ofList (renderDec (.fin false 12 (-9))) = "1.2E-8" ∧ String.ofList (renderDec (.fin false 5 (-6))) = "0.000005" := by
+  decide
 example : parseInteger (.str " -12_000 ".toList) = .ok (.int (-12000)) := by decide
 example : parseVarchar (some 3) (.str "héllo".toList) = .ok (.str "hél".toList) := by decide
 
